@@ -22,8 +22,8 @@ use crate::{dbutil, watch};
 
 pub fn plan(tier: &str) -> u64 {
     match tier {
-        "quick" => 1 + 12 + 40 + n_parked(tier) + n_open_race(tier),
-        _ => 2 + 100 + 500 + n_parked(tier) + n_open_race(tier),
+        "quick" => 1 + 12 + 40 + n_parked(tier) + n_open_race(tier) + n_outlive(tier),
+        _ => 2 + 100 + 500 + n_parked(tier) + n_open_race(tier) + n_outlive(tier),
     }
 }
 
@@ -32,6 +32,9 @@ fn n_shapes(tier: &str) -> u64 {
 }
 fn n_parked(tier: &str) -> u64 {
     if tier == "quick" { 24 } else { 240 }
+}
+fn n_outlive(tier: &str) -> u64 {
+    if tier == "quick" { 8 } else { 64 }
 }
 fn n_open_race(tier: &str) -> u64 {
     if tier == "quick" { 12 } else { 96 }
@@ -426,6 +429,89 @@ fn case_gap(out: &mut CaseOut, seed: u64, idx: u64) {
 }
 
 
+/// An iterator outlives the database handle it came from (the handle is dropped first), and the
+/// directory is opened again. Either that open is refused while the iterator lives, or whatever
+/// the new instance does (rewrite everything, compact, collect garbage) leaves the iterator's
+/// tables alone: the iterator must deliver exactly its frozen view without an error.
+fn case_iterator_outlives_db(out: &mut CaseOut, seed: u64, idx: u64) {
+    let mut rng = Rng::new(mix(&[seed, idx], "c11-outlive"));
+    let d = director();
+    d.reset(rng.next_u64());
+    let cfg = Config { memtable: 1024, file: *rng.pick(&[1024u64, 4096]), block: 256, reuse: rng.chance(0.5) };
+    let fs = SimFs::from_image(&dbutil::root_image());
+    fs.set_strict_unlink(true);
+    let mut sess = Session::new(fs.clone(), cfg);
+    if let Err(e) = sess.open() {
+        out.violate("C11/open-failed", json!({"error": e}));
+        return;
+    }
+    let pool = gen::key_pool(&mut rng, gen::KeyFamily::Ascii, 60);
+    let mut counter = 0u64;
+    for k in &pool {
+        counter += 1;
+        let _ = sess.put(k, &gen::tagged_value(&mut rng, &format!("v{counter}:"), 40));
+    }
+    sess.compact(None, None);
+    sess.wait_quiescent(Duration::from_secs(10));
+    let frozen: Vec<(Vec<u8>, Vec<u8>)> = sess.model.iter().map(|(k, v)| (k.clone(), v.clone())).collect();
+    let mut it = match sess.db().new_iterator(ReadOptions { fill_cache: false, snapshot: None }) {
+        Ok(it) => it,
+        Err(e) => {
+            out.violate("C11/new-iterator-error", json!({"error": e.to_string()}));
+            return;
+        }
+    };
+    let model = sess.model.clone();
+    sess.close();
+    let ctx = json!({"family": "iterator-outlives-its-database", "config": cfg.describe(), "entries": frozen.len()});
+    let mut sess2 = Session::new(fs.clone(), cfg);
+    sess2.model = model;
+    let second_open = sess2.open();
+    let refused = second_open.is_err();
+    if !refused {
+        for round in 0..2 {
+            for k in &pool {
+                counter += 1;
+                let _ = sess2.put(k, &gen::tagged_value(&mut rng, &format!("n{round}.{counter}:"), 40));
+            }
+            sess2.compact(None, None);
+        }
+        sess2.wait_quiescent(Duration::from_secs(10));
+        let _ = one_more_cycle(out, &mut sess2);
+    }
+    // the old iterator reads its view
+    let mut got: Vec<(Vec<u8>, Vec<u8>)> = vec![];
+    let mut seek_error = None;
+    if let Err(e) = it.seek_to_first() {
+        seek_error = Some(e.to_string());
+    }
+    while seek_error.is_none() && it.is_valid() && got.len() <= frozen.len() + 1 {
+        let (k, v) = it.current().unwrap();
+        got.push((k.clone(), v.clone()));
+        it.next();
+    }
+    let status = it.status().map(|e| e.to_string());
+    drop(it);
+    if seek_error.is_some() || status.is_some() || got != frozen {
+        out.violate(
+            "C11/live-file-deleted/iterator-of-the-previous-instance-lost-its-tables",
+            json!({"ctx": ctx, "second_open_refused": refused, "seek_error": seek_error, "status": status, "entries_delivered": got.len(), "entries_expected": frozen.len(),
+                "fs_anomalies": fs.anomalies().iter().take(4).map(|a| format!("{} {}", a.what, a.path)).collect::<Vec<_>>()}),
+        );
+    }
+    if refused {
+        // with the iterator gone the directory must open
+        if let Err(e) = sess2.open() {
+            out.violate("C11/open-failed-after-the-last-iterator-was-dropped", json!({"ctx": ctx, "error": e}));
+            return;
+        }
+    }
+    dir_check(out, &mut sess2, "after-an-iterator-outlived-its-database", &ctx, "C11");
+    sess2.close();
+    out.nontrivial(format!("iterator-outlives-db/second-open-{}", if refused { "refused" } else { "succeeded" }));
+    out.sample = Some(json!({"family": "iterator-outlives-its-database", "ctx": ctx, "second_open_refused_while_iterator_alive": refused}));
+}
+
 /// The garbage collection that ends `DB::open` is held right after it has listed what to delete,
 /// in a database that needs a compaction at once (four level-0 tables after recovery) and whose
 /// directory holds orphan tables with exactly the file numbers the new instance hands out next.
@@ -693,6 +779,8 @@ pub fn run_case(tier: &str, seed: u64, idx: u64) -> CaseOut {
         case_gap(&mut out, seed, idx);
     } else if idx < ng + no {
         case_orphans(&mut out, seed, idx - ng);
+    } else if idx >= ng + no + n_shapes(tier) + n_parked(tier) + n_open_race(tier) {
+        case_iterator_outlives_db(&mut out, seed, idx - ng - no - n_shapes(tier) - n_parked(tier) - n_open_race(tier));
     } else if idx >= ng + no + n_shapes(tier) + n_parked(tier) {
         case_open_gc_race(&mut out, seed, idx - ng - no - n_shapes(tier) - n_parked(tier));
     } else if idx >= ng + no + n_shapes(tier) {
